@@ -3,6 +3,7 @@ package checks
 import (
 	"context"
 	"fmt"
+	"strings"
 
 	wire "github.com/jeroenrinzema/psql-wire"
 	"github.com/lib/pq/oid"
@@ -18,8 +19,8 @@ type c08 struct{ base }
 
 func init() {
 	core.Register(c08{base{id: "C08", level: "exploration", quickB: 16, thoroughB: 32,
-		rule: "Parse + Describe-statement + Bind + Describe-portal + Execute + Sync with parameter counts {0,1,2,3,17,255,256,1000} (+65535 in thorough); values: empty, NUL-containing, random, typed values encoded by the harness's own text/binary encoders, SQL NULL at random subsets of positions; parameter-format vectors of the three admissible shapes (none / one / n) over {text,binary}; result-format vectors likewise over 0-6 typed columns; declared parameter OID lists. The statement function records count, per-parameter Format(), Value() bytes and nil-ness, and Parameter.Scan(declared oid); all are compared with what was sent. Non-trivial = contains a NULL, an empty value, a binary code or a one-code-for-all vector; distinct = (count class, format shapes, NULL placement class, types).",
-		need:        []string{"binds_checked", "parameters_compared", "null_parameters", "empty_parameters", "scans_compared", "one_code_for_all", "positional_codes", "result_format_rows"},
+		rule: "Parse + Describe-statement + Bind + Describe-portal + Execute + Sync with parameter counts {0,1,2,3,17,255,256,1000} (+65535 in thorough); values: empty, NUL-containing, random, typed values encoded by the harness's own text/binary encoders, SQL NULL at random subsets of positions; parameter-format vectors of the three admissible shapes (none / one / n) over {text,binary}; result-format vectors likewise over 0-6 typed columns; declared parameter OID lists; plus batches binding 2-6 portals (different parameters and format vectors) before describing/executing them in shuffled order. The statement function records count, per-parameter Format(), Value() bytes and nil-ness, and Parameter.Scan(declared oid); all are compared with what was sent. Non-trivial = contains a NULL, an empty value, a binary code or a one-code-for-all vector; distinct = (count class, format shapes, NULL placement class, types).",
+		need:        []string{"binds_checked", "parameters_compared", "null_parameters", "empty_parameters", "scans_compared", "one_code_for_all", "positional_codes", "result_format_rows", "multi_bind_batches"},
 		assumptions: append([]string{"NULL must be distinguishable from empty through the public accessors: Value()==nil for NULL, non-nil empty slice for the empty value; inadmissible format-code counts are not generated"}, commonAssumptions...)}})
 }
 
@@ -161,6 +162,101 @@ func (ch c08) Run(c *core.Ctx) {
 		}
 		rng := core.NewRng(c.Seed, "C08", c.Batch, i)
 		ch.runCase(c, env, c08gen(rng, c.Tier == "thorough"), i)
+		if i%4 == 0 {
+			ch.multiBind(c, env, rng)
+		}
+	}
+}
+
+// multiBind binds several portals (different parameters, parameter formats and result
+// formats) before describing/executing any of them, in shuffled order: every portal must
+// keep exactly its own Bind's parameters and format codes.
+func (ch c08) multiBind(c *core.Ctx, env *hs.Env, rng *core.Rng) {
+	cols := wire.Columns{{Name: "t", Oid: oid.T_text, Width: -1}, {Name: "i", Oid: oid.T_int4, Width: -1}, {Name: "b", Oid: oid.T_bytea, Width: -1}}
+	row := []any{"txt", int32(258), []byte{1, 2, 3}}
+	st := &hs.Stmt{ID: "mb", Cols: cols, Params: []oid.Oid{oid.T_text, oid.T_text}, Ops: []hs.Op{{K: "row", Vals: row}, {K: "complete", Tag: "SELECT 1"}}}
+	sess := &hs.Sess{Progs: map[string]*hs.Prog{"q": {Stmts: []*hs.Stmt{st}}}}
+	cl := hs.NewClient(env.Dial(sess))
+	if err := cl.StartupOK("u"); err != nil {
+		return
+	}
+	defer cl.Finish()
+	n := 2 + rng.Intn(5)
+	type pb struct {
+		name   string
+		params [][]byte
+		pf, rf []int16
+	}
+	var ps []pb
+	in := pg.Parse("s", "q", nil)
+	for i := 0; i < n; i++ {
+		b := pb{name: fmt.Sprintf("p%d", i), params: [][]byte{[]byte(fmt.Sprintf("portal-%d", i)), rng.Bytes(1 + rng.Intn(12))}}
+		switch rng.Intn(3) {
+		case 1:
+			b.pf = []int16{int16(rng.Intn(2))}
+		case 2:
+			b.pf = []int16{int16(rng.Intn(2)), int16(rng.Intn(2))}
+		}
+		switch rng.Intn(3) {
+		case 1:
+			b.rf = []int16{int16(rng.Intn(2))}
+		case 2:
+			b.rf = []int16{int16(rng.Intn(2)), int16(rng.Intn(2)), int16(rng.Intn(2))}
+		}
+		ps = append(ps, b)
+		in = append(in, pg.Bind(b.name, "s", b.pf, b.params, b.rf)...)
+	}
+	order := make([]int, n)
+	for i := range order {
+		order[i] = i
+	}
+	rngShuffle(rng, order)
+	for _, i := range order {
+		in = append(in, pg.Describe('P', ps[i].name)...)
+		in = append(in, pg.Execute(ps[i].name, 0)...)
+	}
+	in = append(in, pg.Sync()...)
+	out, closed := cl.Step(in)
+	cs := map[string]any{"multi_bind_portals": n}
+	msgs, err := parseAll(out)
+	want := "1" + strings.Repeat("2", n) + strings.Repeat("TDC", n) + "Z"
+	if err != nil || closed || pg.Types(msgs) != want {
+		c.Violate("multi-bind", "multi-portal batch transcript", fmt.Sprintf("%v closed=%v got %s want %s", err, closed, pg.Types(msgs), want), cs)
+		return
+	}
+	var execs []hs.ExecRec
+	for _, e := range cl.C.Events() {
+		if e.Kind == "cb" && e.Name == "exec" {
+			execs = append(execs, e.Data.(hs.ExecRec))
+		}
+	}
+	c.Count("multi_bind_batches", 1)
+	c.Eval(fmt.Sprintf("multibind n=%d", n), true)
+	for k, i := range order {
+		b := ps[i]
+		desc, drow := msgs[1+n+3*k], msgs[1+n+3*k+1]
+		for j := range cols {
+			wf := fmtFor(b.rf, j)
+			if desc.Cols[j].Format != wf {
+				c.Violate("multi-bind", "portal describes with another Bind's result format codes", fmt.Sprintf("portal %s column %d announced %d, its Bind asked for %d (%d portals bound before use)", b.name, j, desc.Cols[j].Format, wf, n), cs)
+				return
+			}
+			got, derr := pg.Decode(uint32(cols[j].Oid), wf, drow.Fields[j])
+			if wantC := pg.Canon(uint32(cols[j].Oid), row[j]); derr != nil || got != wantC {
+				c.Violate("multi-bind", "portal encodes rows with another Bind's result format codes", fmt.Sprintf("portal %s column %d: %v got %s want %s", b.name, j, derr, got, wantC), cs)
+				return
+			}
+		}
+		if k >= len(execs) || len(execs[k].Params) != 2 || string(execs[k].Params[0]) != string(b.params[0]) || string(execs[k].Params[1]) != string(b.params[1]) {
+			c.Violate("multi-bind", "portal executes with another Bind's parameters", fmt.Sprintf("portal %s", b.name), cs)
+			return
+		}
+		for j := 0; j < 2; j++ {
+			if execs[k].Formats[j] != fmtFor(b.pf, j) {
+				c.Violate("multi-bind", "portal executes with another Bind's parameter format codes", fmt.Sprintf("portal %s parameter %d", b.name, j), cs)
+				return
+			}
+		}
 	}
 }
 
